@@ -24,6 +24,12 @@ class Monitor(Observer):
         self.cm = R.trade_log(bt)
         self.log = self.cm.__enter__()
 
+    def after(self, bt, spec, root, dates, step, i):
+        # the ledger at the level of a single operation (theorem C07.ledger_step evaluated on the real state)
+        for key, msg in M.live_ledger_check(step):
+            self.ctx.violation("C07/" + key, "op %d: %s" % (i, msg), {"spec": spec, "mode": "history", "upto": i})
+        self.ctx.count("node-balance-steps")
+
     def finish(self, bt, spec, root, dates, steps):
         self.cm.__exit__(None, None, None)
         if steps and "err" in steps[-1]:
